@@ -48,33 +48,17 @@ Proof.
     apply (om_get_in V (lcells l) k v Hs) in E3. congruence.
 Qed.
 
-(* ---------------------------------------------------------------- forward walk *)
-Lemma fwd_walk_flat (ls : list leaf) : flat ls = fst (fwd_walk V ls) ++ flat (snd (fwd_walk V ls)).
+(* ---------------------------------------------------------------- forward enumeration *)
+Lemma leaves_nonempty : forall h lo hi (t : tree), bounded h lo hi t -> leaves h t <> [].
 Proof.
-  induction ls as [|l r IH]; [reflexivity|]. cbn [fwd_walk]. unfold lempty. destruct (lcells l) as [|c cs] eqn:E.
-  - cbn [fst snd app]. unfold flat. cbn [flat_map]. rewrite E. reflexivity.
-  - destruct (fwd_walk V r) as [es rest] eqn:Er. cbn [fst snd] in *. unfold flat in *. cbn [flat_map]. rewrite E, IH, app_assoc. reflexivity.
+  induction h as [|h' IH]; intros lo hi t HB; destruct t as [l | id kids r]; cbn in HB; try contradiction; [discriminate|].
+  destruct HB as [_ HB]. destruct (kids_bounded_right_c28 V _ _ _ _ _ HB) as (lo' & Hr). rewrite leaves_node. unfold BTreeInv.kleaves.
+  intros E. apply app_eq_nil in E as [_ E]. exact (IH _ _ _ Hr E).
 Qed.
 
-Lemma nonempty_left_false (ls : list leaf) : nonempty_left V ls = false -> flat ls = [].
+Lemma fwd_ok h lo hi (t : tree) : bounded h lo hi t -> scan_from V (leaves h t) 0 = abs h t.
 Proof.
-  unfold nonempty_left. induction ls as [|l r IH]; intros H; [reflexivity|]. cbn [existsb] in H.
-  apply orb_false_iff in H as [H1 H2]. unfold flat in *. cbn [flat_map]. rewrite (IH H2), app_nil_r.
-  unfold lempty in H1. destruct (lcells l); [reflexivity | discriminate].
-Qed.
-
-Lemma scan_from_0 (ls : list leaf) : flat ls = fst (scan_from V ls 0) ++ flat (snd (scan_from V ls 0)).
-Proof.
-  destruct ls as [|l r]; [reflexivity|]. cbn [scan_from]. destruct (Nat.leb_spec (length (lcells l)) 0) as [H | H].
-  - cbn [fst snd app]. unfold flat. cbn [flat_map]. destruct (lcells l); [reflexivity | cbn in H; lia].
-  - pose proof (fwd_walk_flat r) as Hw. destruct (fwd_walk V r) as [es rest]. cbn [fst snd skipn] in *.
-    unfold flat in *. cbn [flat_map]. rewrite Hw, app_assoc. reflexivity.
-Qed.
-
-Lemma fwd_ok h (t : tree) : nonempty_left V (snd (scan_from V (leaves h t) 0)) = false ->
-  fst (scan_from V (leaves h t) 0) = abs h t.
-Proof.
-  intros H. pose proof (scan_from_0 (leaves h t)) as Hf. rewrite (nonempty_left_false _ H), app_nil_r in Hf. symmetry. exact Hf.
+  intros HB. unfold BTree.abs. pose proof (leaves_nonempty h lo hi t HB). destruct (leaves h t) as [|l r]; [contradiction|]. reflexivity.
 Qed.
 
 (* ---------------------------------------------------------------- seek *)
@@ -102,21 +86,34 @@ Definition seekk (h' : nat) (kids : list kid) (r : tree) (k : key) : list leaf :
     ++ flat_map (fun sc : kid => leaves h' (snd sc)) (skipn (S i) kids)
     ++ (if (i <? length kids)%nat then leaves h' r else []).
 
+Definition tail_ge (ls : list leaf) (k : key) : Prop :=
+  match ls with [] => True | _ :: rest => forall x, In x (flat rest) -> ~ klt (fst x) k end.
+
 Lemma seek_decomp : forall h lo hi (t : tree) k, bounded h lo hi t -> lo_ok lo k -> hi_ok hi k ->
-  exists A, abs h t = A ++ flat (seek_leaves V h t k) /\ (forall x, In x A -> klt (fst x) k).
+  (exists A, abs h t = A ++ flat (seek_leaves V h t k) /\ (forall x, In x A -> klt (fst x) k))
+  /\ tail_ge (seek_leaves V h t k) k /\ seek_leaves V h t k <> [].
 Proof.
   induction h as [|h' IH]; intros lo hi t k HB Hlo Hhi; destruct t as [l | id kids r]; cbn in HB; try contradiction.
-  - exists []. split; [|intros x []]. rewrite abs_leaf. cbn. rewrite app_nil_r. reflexivity.
+  - split; [|split; [intros x []| discriminate]]. exists []. split; [|intros x []]. rewrite abs_leaf. cbn. rewrite app_nil_r. reflexivity.
   - destruct HB as [_ HB]. rewrite abs_node. change (seek_leaves V (S h') (Node id kids r) k) with (seekk h' kids r k).
     revert lo HB Hlo. induction kids as [|sc rest IHk]; intros lo HB Hlo.
     + unfold seekk. cbn [cidx child_at nth_error skipn flat_map length Nat.ltb Nat.leb app]. rewrite app_nil_r, kabs_nil. eapply IH; eassumption.
     + destruct HB as (H1 & H2 & H3 & H4). rewrite kabs_cons. unfold seekk. cbn [cidx]. destruct (kltb k (fst sc)) eqn:E.
-      * apply kltb_true in E. destruct (IH _ _ _ k H3 Hlo E) as (A & HA1 & HA2). exists A. split; [|exact HA2].
+      * apply kltb_true in E. destruct (IH _ _ _ k H3 Hlo E) as ((A & HA1 & HA2) & Htl & Hne).
         cbn [child_at nth_error skipn length]. change (0 <? S (length rest))%nat with true.
-        rewrite HA1. unfold flat, kabs, kleaves. rewrite !flat_map_app, <- app_assoc. reflexivity.
-      * apply kltb_false in E. destruct (IHk (Some (fst sc)) H4 E) as (A & HA1 & HA2).
+        split; [|split].
+        -- exists A. split; [|exact HA2]. rewrite HA1. unfold flat, kabs, kleaves. rewrite !flat_map_app, <- app_assoc. reflexivity.
+        -- destruct (seek_leaves V h' (snd sc) k) as [|l0 tl] eqn:Es; [contradiction|]. cbn [app tail_ge] in *.
+           intros x Hx. unfold flat in Hx. rewrite flat_map_app in Hx. apply in_app_or in Hx as [Hx | Hx]; [apply Htl; exact Hx|].
+           pose proof (kabs_in_bounds V vlen h' (abs_in_bounds V vlen h') _ _ _ _ H4) as B. unfold BTreeInv.cells_in in B. rewrite Forall_forall in B.
+           assert (Hxk : In x (kabs h' rest r)) by (unfold BTreeInv.kabs, BTreeInv.kleaves; exact Hx).
+           destruct (B _ Hxk) as [B1 _]. cbn in B1. intros Hlt. apply B1. eapply klt_trans; eassumption.
+        -- destruct (seek_leaves V h' (snd sc) k); [contradiction | discriminate].
+      * apply kltb_false in E. destruct (IHk (Some (fst sc)) H4 E) as ((A & HA1 & HA2) & Htl & Hne).
+        unfold seekk in HA1, Htl, Hne. cbn [child_at nth_error skipn length].
+        split; [|split; [exact Htl | exact Hne]].
         exists (abs h' (snd sc) ++ A). split.
-        -- rewrite HA1, <- app_assoc. unfold seekk. cbn [child_at nth_error skipn length]. reflexivity.
+        -- rewrite HA1, <- app_assoc. reflexivity.
         -- intros x Hx. apply in_app_or in Hx as [Hx | Hx]; [|apply HA2; exact Hx].
            pose proof (abs_in_bounds V vlen _ _ _ _ H3) as B. unfold BTreeInv.cells_in in B. rewrite Forall_forall in B.
            destruct (B _ Hx) as [_ B2]. cbn in B2. eapply lt_nlt_trans; [exact B2 | exact E].
@@ -135,30 +132,25 @@ Qed.
 Lemma om_seek_head (b : list entry) k x b' : b = x :: b' -> ~ klt (fst x) k -> om_seek V k b = b.
 Proof. intros -> H. cbn. assert (E : kltb (fst x) k = false) by (apply kltb_false; exact H). rewrite E. reflexivity. Qed.
 
+Lemma om_seek_all_ge (b : list entry) k : (forall x, In x b -> ~ klt (fst x) k) -> om_seek V k b = b.
+Proof. intros H. destruct b as [|x b']; [reflexivity|]. eapply om_seek_head; [reflexivity | apply H; left; reflexivity]. Qed.
+
 Lemma seek_ok h lo hi (t : tree) k : bounded h lo hi t -> lo_ok lo k -> hi_ok hi k ->
   let ls := seek_leaves V h t k in
   let start := match ls with l :: _ => snd (lfind V k (lcells l)) | [] => O end in
-  nonempty_left V (snd (scan_from V ls start)) = false ->
-  fst (scan_from V ls start) = om_seek V k (abs h t).
+  scan_from V ls start = om_seek V k (abs h t).
 Proof.
-  intros HB Hlo Hhi ls start Hne.
-  destruct (seek_decomp h lo hi t k HB Hlo Hhi) as (A & HA1 & HA2).
+  intros HB Hlo Hhi ls start.
+  destruct (seek_decomp h lo hi t k HB Hlo Hhi) as ((A & HA1 & HA2) & Htl & _).
   destruct (seek_head h lo hi t k HB Hlo Hhi) as (l & rest & E1 & E2).
-  fold ls in HA1, E1. unfold start in *. clear start. rewrite E1 in *. rewrite HA1, om_seek_app by exact HA2.
+  fold ls in HA1, E1, Htl. unfold start in *. clear start. rewrite E1 in *. rewrite HA1, om_seek_app by exact HA2.
   pose proof (leaf_sorted h lo hi t l HB (route_in_leaves V h t k l E2)) as Hs.
   destruct (lfind_split k (lcells l) Hs) as [S1 S2]. set (i := snd (lfind V k (lcells l))) in *.
-  unfold flat. cbn [flat_map].
+  unfold flat. cbn [flat_map scan_from tail_ge] in *.
   replace (lcells l ++ flat_map (@lcells V) rest) with (firstn i (lcells l) ++ (skipn i (lcells l) ++ flat_map (@lcells V) rest))
     by (rewrite app_assoc, firstn_skipn; reflexivity).
-  rewrite om_seek_app by exact S1.
-  cbn [scan_from] in Hne |- *. destruct (Nat.leb_spec (length (lcells l)) i) as [Hle | Hgt].
-  - cbn [fst snd] in *. rewrite skipn_all2 by exact Hle. cbn [app].
-    pose proof (nonempty_left_false _ Hne) as Hf. unfold flat in Hf. rewrite Hf. reflexivity.
-  - pose proof (fwd_walk_flat rest) as Hw. destruct (fwd_walk V rest) as [es rs]. cbn [fst snd] in *.
-    pose proof (nonempty_left_false _ Hne) as Hf. rewrite Hf, app_nil_r in Hw. unfold flat in Hw. rewrite Hw.
-    destruct (skipn i (lcells l)) as [|x xs] eqn:Esk.
-    + exfalso. apply (f_equal (@length _)) in Esk. rewrite skipn_length in Esk. cbn in Esk. lia.
-    + symmetry. eapply om_seek_head; [reflexivity|]. apply S2. left. reflexivity.
+  rewrite om_seek_app by exact S1. symmetry. apply om_seek_all_ge.
+  intros x Hx. apply in_app_or in Hx as [Hx | Hx]; [apply S2; exact Hx | apply Htl; exact Hx].
 Qed.
 
 End S.
